@@ -318,6 +318,14 @@ func (m *Manager) AddPublicIP(ip net.IP) error {
 	m.poolMu.Lock()
 	defer m.poolMu.Unlock()
 
+	// An address that is already in the pool keeps its one entry: a second
+	// entry for it would hand out the same port blocks a second time
+	for i := range m.pool {
+		if m.pool[i].PublicIP.Equal(ip4) {
+			return nil
+		}
+	}
+
 	// Calculate max subscribers for this IP
 	totalPorts := m.portRangeEnd - m.portRangeStart + 1
 	maxSubs := totalPorts / m.portsPerSubscriber
